@@ -265,3 +265,29 @@ func runsConservation(c caseInfo, outs []string, st *implState) []fail {
 	}
 	return nil
 }
+
+// fromitConservation: C07 for stream.FromIterator ("FromIterator returns a Stream that yields the values from
+// iter"), judged in every case that builds one -- whatever the stages behind it, whatever calls failed on the way.
+// Reference: the two recorders of impl.go (tappedFromIterator). At every executed line up to the first Close: the
+// items the stream has handed out are exactly the first items the iterator delivered, in order, and the end is
+// reported only when the iterator has ended and everything it delivered was handed out. Nothing is asked about
+// *when* the iterator is pulled (that is the laziness clause) nor about what a failed call costs (C08): an
+// implementation that pulled ahead and kept the item for the next call would pass.
+func fromitConservation(c caseInfo, st *implState) []fail {
+	var fails []fail
+	for _, r := range st.reg.fromits {
+		if r.badAt < 0 {
+			continue
+		}
+		toks := c.builds[0]
+		params := mkParams(strings.TrimSuffix(strings.TrimSuffix(c.mode, "pk"), "rp"), toks)
+		params["who"] = "fromiterator"
+		at := "the build line"
+		if i := r.badAt - c.nbuild; i >= 0 && i < len(c.ops) {
+			at = fmt.Sprintf("op %d %q", i, c.ops[i])
+		}
+		fails = append(fails, fail{"c07-fromiterator-items-st", params, fmt.Sprintf("%s: after %s: %s", strings.Join(toks, " "), at, r.what)})
+		break
+	}
+	return fails
+}
